@@ -2,6 +2,7 @@ package core
 
 import (
 	"go/ast"
+	"go/constant"
 	"go/token"
 	"go/types"
 	"os"
@@ -34,13 +35,57 @@ func (m *Model) singleDefs() map[*types.Var]ast.Expr {
 		}
 		return v
 	}
+	// valueRoot: the local whose own storage the place e (v.f, v[i], v.f.g ...) lies in: selectors and array indexing
+	// are followed only through struct and array values, not through pointers, slices or maps
+	valueRoot := func(e ast.Expr) *types.Var {
+		for {
+			switch x := ast.Unparen(e).(type) {
+			case *ast.SelectorExpr:
+				e = x.X
+			case *ast.IndexExpr:
+				e = x.X
+			default:
+				return varOf(e)
+			}
+			t := m.Info.TypeOf(e)
+			if t == nil {
+				return nil
+			}
+			switch t.Underlying().(type) {
+			case *types.Struct, *types.Array:
+			default:
+				return nil
+			}
+		}
+	}
 	for _, f := range m.Funcs {
 		ast.Inspect(f.Body, func(n ast.Node) bool {
 			switch x := n.(type) {
+			case *ast.CallExpr:
+				// a pointer-receiver method called on (a part of) an addressable local takes its address
+				if sel, ok := ast.Unparen(x.Fun).(*ast.SelectorExpr); ok {
+					if s, ok := m.Info.Selections[sel]; ok && s.Kind() == types.MethodVal {
+						if sig, ok := s.Obj().Type().(*types.Signature); ok && sig.Recv() != nil {
+							if _, ptr := sig.Recv().Type().(*types.Pointer); ptr {
+								if t := m.Info.TypeOf(sel.X); t != nil {
+									if _, isPtr := t.Underlying().(*types.Pointer); !isPtr {
+										if v := valueRoot(&ast.SelectorExpr{X: sel.X, Sel: sel.Sel}); v != nil {
+											count[v] += 2
+										}
+									}
+								}
+							}
+						}
+					}
+				}
 			case *ast.AssignStmt:
 				for i, l := range x.Lhs {
 					v := varOf(l)
 					if v == nil {
+						// a store into a field or element of a struct- or array-valued local changes the local
+						if rv := valueRoot(l); rv != nil {
+							count[rv] += 2
+						}
 						continue
 					}
 					count[v]++
@@ -55,6 +100,8 @@ func (m *Model) singleDefs() map[*types.Var]ast.Expr {
 			case *ast.IncDecStmt:
 				if v := varOf(x.X); v != nil {
 					count[v] += 2
+				} else if rv := valueRoot(x.X); rv != nil {
+					count[rv] += 2
 				}
 			case *ast.UnaryExpr:
 				if x.Op == token.AND {
@@ -214,6 +261,98 @@ func (m *Model) pureFunc(f *Func) bool {
 // LocalDef returns the expression that the local v names (see above), or nil.
 func (m *Model) LocalDef(v *types.Var) ast.Expr { return m.singleDefs()[v] }
 
+// WithCall runs fn with the parameters (and receiver) of cal bound to the actuals of call: while fn runs, Inline -
+// and with it ExprString and field-key resolution - reads a parameter of cal as the (pure) expression the caller
+// passes, so that the body of a helper can be analysed "as if written at the call site". Actuals with effects are not
+// bound. Returns false (fn not run) if cal has no body, is variadic or generic, or is already being analysed.
+func (m *Model) WithCall(cal *Func, call *ast.CallExpr, fn func()) bool {
+	if !canonLocals || cal == nil || cal.Body == nil || cal.Sig == nil || cal.Lit != nil || cal.Sig.Variadic() ||
+		cal.Sig.TypeParams().Len() > 0 || cal.Sig.RecvTypeParams().Len() > 0 || cal.Sig.Params().Len() != len(call.Args) || len(m.binds) > 6 {
+		return false
+	}
+	if m.expanding == nil {
+		m.expanding = map[*Func]bool{}
+	}
+	if m.expanding[cal] {
+		return false
+	}
+	b := map[types.Object]ast.Expr{}
+	for i, a := range call.Args {
+		if ia := m.inline(a, 0); m.pureExpr(ia) {
+			b[cal.Sig.Params().At(i)] = ia
+		}
+	}
+	if recv := cal.Sig.Recv(); recv != nil {
+		if sel, ok := ast.Unparen(call.Fun).(*ast.SelectorExpr); ok {
+			if rx := m.inline(sel.X, 0); m.pureExpr(rx) {
+				if _, isPtr := recv.Type().(*types.Pointer); isPtr {
+					if u, ok := ast.Unparen(rx).(*ast.UnaryExpr); ok && u.Op == token.AND {
+						rx = u.X
+					}
+				}
+				b[recv] = rx
+			}
+		}
+	}
+	m.binds = append(m.binds, b)
+	m.expanding[cal] = true
+	defer func() {
+		m.binds = m.binds[:len(m.binds)-1]
+		delete(m.expanding, cal)
+	}()
+	fn()
+	return true
+}
+
+// litField returns the element that the struct literal lit (possibly under &) gives for the field selected by sel, if
+// lit is a struct literal, the selection is a direct field of it and the element is present.
+func (m *Model) litField(lit ast.Expr, sel *ast.SelectorExpr) ast.Expr {
+	lit = ast.Unparen(lit)
+	if u, ok := lit.(*ast.UnaryExpr); ok && u.Op == token.AND {
+		lit = ast.Unparen(u.X)
+	}
+	cl, ok := lit.(*ast.CompositeLit)
+	if !ok {
+		return nil
+	}
+	s, ok := m.Info.Selections[sel]
+	if !ok || s.Kind() != types.FieldVal || len(s.Index()) != 1 {
+		return nil
+	}
+	fld, _ := s.Obj().(*types.Var)
+	if fld == nil {
+		return nil
+	}
+	t := m.Info.TypeOf(cl)
+	if t == nil {
+		return nil
+	}
+	st, ok := t.Underlying().(*types.Struct)
+	if !ok {
+		return nil
+	}
+	for i, e := range cl.Elts {
+		if kv, ok := e.(*ast.KeyValueExpr); ok {
+			if id, ok := kv.Key.(*ast.Ident); ok && id.Name == fld.Name() {
+				return kv.Value
+			}
+		} else if i < st.NumFields() && st.Field(i).Name() == fld.Name() {
+			return e
+		}
+	}
+	return nil
+}
+
+// ConstBool reports the constant truth value of e, with naming locals and bound parameters resolved.
+func (m *Model) ConstBool(e ast.Expr) (bool, bool) {
+	for _, x := range []ast.Expr{e, m.Inline(e)} {
+		if tv, ok := m.Info.Types[ast.Unparen(x)]; ok && tv.Value != nil && tv.Value.Kind() == constant.Bool {
+			return constant.BoolVal(tv.Value), true
+		}
+	}
+	return false, false
+}
+
 // Inline returns e with every local that names an expression replaced by that expression (recursively). Nodes without
 // such locals are returned as they are, so type information stays available for them.
 func (m *Model) Inline(e ast.Expr) ast.Expr {
@@ -233,14 +372,19 @@ func (m *Model) inline(e ast.Expr, depth int) ast.Expr {
 	if m.noExpand {
 		memo = &m.inlinedLocals
 	}
-	if r, ok := (*memo)[e]; ok {
-		return r
+	bound := len(m.binds) > 0 // results depend on the bindings: not memoised
+	if !bound {
+		if r, ok := (*memo)[e]; ok {
+			return r
+		}
 	}
 	r := m.inline1(e, depth)
-	if *memo == nil {
-		*memo = map[ast.Expr]ast.Expr{}
+	if !bound {
+		if *memo == nil {
+			*memo = map[ast.Expr]ast.Expr{}
+		}
+		(*memo)[e] = r
 	}
-	(*memo)[e] = r
 	if r != e {
 		if _, isIdent := e.(*ast.Ident); !isIdent {
 			if tv, ok := m.Info.Types[e]; ok {
@@ -285,6 +429,17 @@ func (m *Model) inline1(e ast.Expr, depth int) ast.Expr {
 	switch x := e.(type) {
 	case *ast.Ident:
 		if v, ok := m.Info.ObjectOf(x).(*types.Var); ok {
+			// a parameter bound to the actual of the call under analysis (WithCall)
+			for i := len(m.binds) - 1; i >= 0; i-- {
+				if a, ok := m.binds[i][v]; ok {
+					if _, isBin := ast.Unparen(a).(*ast.BinaryExpr); isBin {
+						if _, isParen := a.(*ast.ParenExpr); !isParen {
+							return &ast.ParenExpr{X: a}
+						}
+					}
+					return a
+				}
+			}
 			if d, ok := defs[v]; ok {
 				r := m.inline(d, depth+1)
 				switch ast.Unparen(r).(type) {
@@ -305,6 +460,10 @@ func (m *Model) inline1(e ast.Expr, depth int) ast.Expr {
 		if r := m.inline(x.X, depth); r != x.X {
 			if y, ok := deref(r); ok {
 				r = y
+			}
+			// a field of a struct literal is the element given for it: rowSpan{start: a, count: n}.count is n
+			if el := m.litField(r, x); el != nil {
+				return el
 			}
 			return &ast.SelectorExpr{X: r, Sel: x.Sel}
 		}
